@@ -1,5 +1,6 @@
 """Shared machinery of the rule layer: term -> normal form, value decoding, obligations, evidence."""
 import json
+import re
 import os
 import sys
 import time
@@ -465,6 +466,10 @@ class Harness:
         full = '%s__%s' % (self.prop, name)
         assert full not in self.specs, full
         self.lines.append('pub fn %s%s { %s }' % (full, sig, body))
+        # a root that is generic over `BaseNum` speaks for the integer scalar types too: `/` is not a field division there
+        # (`x * (1 / 2)` is 0 for every integer), so quotients are compared as quotients unless the root says otherwise
+        if 'field_div' not in kw and re.search(r'\bS: [\w +:]*\bBaseNum\b', sig.split('(')[0]):
+            kw = dict(kw, field_div=False)
         self.specs[full] = (spec, kw)
         return full
 
@@ -498,6 +503,22 @@ class Harness:
                 elif re.match(r'^a\.\w+\(', body) or re.search(r'\)\.\w+\(', body):
                     # already written in method-call syntax: at a concrete scalar type the same text may resolve differently
                     variants.append(('_m', body))
+            if method_syntax:
+                # `<X<S> as Trait>::f(..)` respelled as the type-relative path `<X<S>>::f(..)` (what `X::f(..)` means in user code): an
+                # inherent associated function of that name wins over the trait's
+                mp = re.match(r'^<([A-Z]\w*(?:<[^<>]*>)?) as [\w:]+(?:<[^<>]*>)?>::(\w+)\((.*)\)$', body)
+                if mp:
+                    variants.append(('_p', '<%s>::%s(%s)' % (mp.group(1), mp.group(2), mp.group(3))))
+                # the same call on an OWNED value (`let mut v = *a; v.method(..)`): method lookup starts from by-value receivers, so a
+                # by-value method of an unrelated trait or an inherent `fn method(self)` on one concrete type wins over `&self` / `&mut self`
+                mb = [vb for vs, vb in variants if vs == '_m']
+                mv = re.match(r'^a\.(\w+)\((.*)\)$', mb[0]) if mb else None
+                if spec[0] in ('ref', 'view', 'refs'):
+                    mv = None       # the result is a pointer into the argument: a copy is another object
+                if mv and sig.startswith('(a: &mut '):
+                    variants.append(('_mv', '{ let mut v_ = *a; let r_ = v_.%s(%s); *a = v_; r_ }' % (mv.group(1), mv.group(2))))
+                elif mv and sig.startswith('(a: &') and not sig.startswith("(a: &'"):
+                    variants.append(('_mv', '{ let v_ = *a; v_.%s(%s) }' % (mv.group(1), mv.group(2))))
             for ty in types:
                 for vs, vb in variants:
                     if vs == '' and method_syntax == 'only':
